@@ -15,7 +15,7 @@ from fractions import Fraction
 
 from engine import facts, paths, fd
 from engine.facts import AnalysisBroken
-from engine.shape import key, args
+from engine.shape import key, args, local_defs
 from rules import planners as P
 from rules.planners import B
 
@@ -932,6 +932,79 @@ class GoalInterp(fd.Interp):
         if c.endswith('numeric_limits::max'):
             return float('1e308')
         raise AnalysisBroken('R01u: call %s in %s' % (c, self.fn.name))
+
+
+def r01y(rep, F, rule='R01y'):
+    rep.rule(rule, 'what is attached to a registered path describes THAT path: where a solution is built from the path to a vertex '
+                   '(PlannerSolution s(getPathToVertex(X)) / getPathToState(X)), the goal difference given to setApproximate and the cost given to '
+                   'setOptimized are functions of X alone -- a local computed from X, or a member that the same block has just assigned, '
+                   'unconditionally, from an expression in X.  A member incumbent that is only conditionally refreshed, or folded with its '
+                   'own old value (betterCost(incumbent, cost of X)), belongs to an earlier vertex: the registered path then carries the '
+                   'difference / cost of another path')
+    n = 0
+    CONFIG = ('objective_', 'opt_', 'name_', 'pdef_', 'spaceInfo_', 'si_')
+    for f in F.functions:
+        if not f.body or not f.file.endswith('.cpp') or '/informedtrees/' not in f.file:
+            continue
+        for ds in [x for x in f.walk() if x['k'] == 'DeclStmt']:
+            for d in ds.get('decls', []):
+                if 'PlannerSolution' not in (d.get('ty') or '') or not d.get('init'):
+                    continue
+                src_calls = [c for c in f.walk(d['init']) if (c.get('callee') or '').split('::')[-1] in ('getPathToVertex', 'getPathToState')]
+                if not src_calls:
+                    continue
+                X = key(f, args(f, src_calls[0])[0])
+                if X is None:
+                    continue
+                skey = '%s#%d' % (d['name'], d['did'])
+                blk = next((a for a in f.ancestors(ds['id']) if a['k'] == 'CompoundStmt'), None)
+                defs = local_defs(f)
+
+                def impure(nid, depth=0, seen=()):
+                    """first leaf that is not a function of X (None if pure)"""
+                    for x in f.walk(nid):
+                        if x['k'] == 'DeclRefExpr' and x.get('dk') in ('Local', 'Parm'):
+                            k = '%s#%d' % (x['name'], x['did'])
+                            if k == X or k in seen:
+                                continue
+                            dd = defs.get(k, [])
+                            if len(dd) == 1 and depth < 4:
+                                r = impure(dd[0], depth + 1, seen + (k,))
+                                if r:
+                                    return r
+                                continue
+                            return 'local %s' % x['name']
+                        if x['k'] == 'MemberExpr' and x.get('dk') == 'Field' and x['ch'] and (f.strip(x['ch'][0]) or {}).get('k') == 'CXXThisExpr':
+                            m = x['name']
+                            if m in CONFIG:
+                                continue
+                            # a member is acceptable if the enclosing block assigns it unconditionally, before this use, from a pure expression
+                            asg = [y for y in (f.strip(c) for c in (blk['ch'] if blk else [])) if y and y['k'] in ('BinaryOperator', 'CXXOperatorCallExpr')
+                                   and (y.get('op') == '=' or y.get('oop') == '=') and (f.strip(y['ch'][0]) or {}).get('name') == m and f.line(y) <= f.line(x)]
+                            if asg and depth < 4 and m not in seen:
+                                r = impure(asg[-1]['ch'][-1], depth + 1, seen + (m,))
+                                if r:
+                                    return r
+                                continue
+                            return 'member %s%s' % (m, ' (folded with its own old value)' if m in seen else
+                                                    ' (not assigned unconditionally from the vertex in this block)')
+                    return None
+                for c in f.walk(blk['id']) if blk else []:
+                    cal = (c.get('callee') or '').split('::')[-1]
+                    if cal not in ('setApproximate', 'setOptimized') or c['k'] != 'CXXMemberCallExpr' or key(f, c['ch'][0]) != skey:
+                        continue
+                    a = args(f, c)
+                    e = a[0] if cal == 'setApproximate' else (a[1] if len(a) > 1 else None)
+                    if e is None:
+                        continue
+                    n += 1
+                    bad = impure(e)
+                    k = len([1 for o in rep.obl if o['rule'] == rule and o['function'] == f.name])
+                    rep.add(rule, f.name, 'describes-its-path:%s#%d' % (cal, k), bad is None, f.where(c),
+                            'the value handed to %s is a function of the vertex whose path is registered' % cal if bad is None else
+                            'the value handed to %s depends on %s, not only on %s, the vertex whose path is being registered' %
+                            (cal, bad, X.split('#')[0]))
+    rep.require_count(rule, 'values attached to solutions built from a vertex path', n, 6)
 
 
 def r01u(rep, F):
